@@ -41,6 +41,41 @@ pub fn show_tokens(toks: &[TextToken]) -> String {
     }
 }
 
+// >>> a_c06 (C06): scalars with their pointer offsets relative to the input slice.
+/// like `show_tokens`, but every scalar token is printed `<tag>@<offset>:<hex>` where offset is
+/// `scalar.as_ptr() - data.as_ptr()`; `@X` when the pointer range is not inside the input slice.
+pub fn show_tokens_ptr(toks: &[TextToken], data: &[u8]) -> String {
+    let lo = data.as_ptr() as usize;
+    let hi = lo + data.len();
+    let mut v: Vec<String> = Vec::with_capacity(toks.len());
+    for t in toks {
+        let (tag, s) = match t {
+            TextToken::Unquoted(s) => ("U", s),
+            TextToken::Quoted(s) => ("Q", s),
+            TextToken::Parameter(s) => ("P", s),
+            TextToken::UndefinedParameter(s) => ("N", s),
+            TextToken::Header(s) => ("H", s),
+            other => {
+                v.push(show_tokens(std::slice::from_ref(other)));
+                continue;
+            }
+        };
+        let b = s.as_bytes();
+        let a = b.as_ptr() as usize;
+        if a < lo || a + b.len() > hi {
+            v.push(format!("{}@X:{}", tag, hex(b)));
+        } else {
+            v.push(format!("{}@{}:{}", tag, a - lo, hex(b)));
+        }
+    }
+    if v.is_empty() {
+        "-".to_string()
+    } else {
+        v.join(" ")
+    }
+}
+// <<< a_c06
+
 pub fn show_tape(r: &Result<TextTape, jomini::Error>) -> String {
     match r {
         Ok(t) => format!("ok {} {}", t.utf8_bom() as u8, show_tokens(t.tokens())),
@@ -93,6 +128,39 @@ pub fn dispatch(kind: &str, a: &[&str]) -> Option<String> {
                 None => "ERR".to_string(),
             }
         }
+        // >>> a_c06 (C06): pointer range of every scalar vs the input slice, three entry points
+        // TextTapeParser::new().parse_slice
+        ("tt.ptr", [h]) => {
+            let d = unhex(h);
+            let r = jomini::text::TextTapeParser::new().parse_slice(&d);
+            // the convenience entry point must produce the same tape
+            let direct = TextTape::from_slice(&d);
+            match (&r, &direct) {
+                (Ok(t), Ok(t2)) => {
+                    if show_tokens(t.tokens()) != show_tokens(t2.tokens()) || t.utf8_bom() != t2.utf8_bom() {
+                        "from_slice-differs".to_string()
+                    } else {
+                        format!("ok {} {}", t.utf8_bom() as u8, show_tokens_ptr(t.tokens(), &d))
+                    }
+                }
+                (Err(_), Err(_)) => "ERR".to_string(),
+                _ => "from_slice-differs".to_string(),
+            }
+        }
+        // parse_slice_into_tape on a tape that holds the tokens of another document (twice: the
+        // previous parse may have succeeded or failed half-way, leaving tokens behind)
+        ("tt.ptr_reuse", [prev, h]) => {
+            let p = unhex(prev);
+            let d = unhex(h);
+            let mut tape = TextTape::new();
+            let _ = TextTape::parser().parse_slice_into_tape(&p, &mut tape);
+            let r = TextTape::parser().parse_slice_into_tape(&d, &mut tape);
+            match r {
+                Ok(()) => format!("ok {} {}", tape.utf8_bom() as u8, show_tokens_ptr(tape.tokens(), &d)),
+                Err(_) => "ERR".to_string(),
+            }
+        }
+        // <<< a_c06
         _ => return None,
     };
     Some(r)
